@@ -136,6 +136,8 @@ def run(c):
     if res[0] != "ok":
         return Outcome(coq, f"{c['cls']} with valid parameters {c} raised {res[1]}", nontriv, sig)
     node = res[1]
+    # the shapes the mathematics implies are those of the parameters AS GIVEN (a round trip must not change them)
+    xin, yout = math_shapes(c, node)
     try:
         if c["rt"] != "none":
             with quiet():
@@ -149,7 +151,6 @@ def run(c):
             node = g2.nodes["n"]
     except BaseException as e:  # noqa: BLE001
         return Outcome(coq, f"round trip ({c['rt']}) of {c['cls']} {c['shape']} raised {type(e).__name__}: {e}", nontriv, sig)
-    xin, yout = math_shapes(c, node)
     fail = check_type_dict(node.input_type, "input", xin) or check_type_dict(node.output_type, "output", yout)
     if fail:
         fail = f"{c['cls']}({c['shape']}, form={c.get('form')}, dtype={c.get('dt')}, after={c['rt']}): {fail}"
